@@ -625,5 +625,6 @@ fn controls_of(op: &Op, step: usize) -> (u8, Vec<Msg>) {
 		Op::SetErrHandler => (0, one(Ctrl::SetErr(true))),
 		Op::UnsetErrHandler => (0, one(Ctrl::SetErr(false))),
 		Op::DropHandle => (0, vec![]),
+		Op::RawContinue => (0, one(Ctrl::ContinueTryGracefulRestart)),
 	}
 }
